@@ -167,7 +167,7 @@ def unflatten_counts(v, counts):
 
 
 def flatten_none(T, tvs):
-    if refops._has_kind(T, ("union", "unknown")):
+    if refops._has_kind(T, ("union",)):
         raise Skip("union")
     if refops._has_kind(T, ("str", "bytes")):
         raise Skip("axis=None takes strings apart into characters in 1.x; the statement does not say")
